@@ -85,6 +85,53 @@ Proof.
     rewrite !fkey_lookup1 in He. subst. reflexivity.
 Qed.
 
+(* The same under CONCURRENCY (C04): the generator looks at each loose file at an instant of its own.  `ls` is whatever it observed:
+   for every key k some instant wk between w0 and the refreshed index w3 at which loose/<k> was (or was not) there with that size.
+   Writers and the packer (with cleaning) may take any monotone steps between any two of these instants. *)
+Definition observed_loose (w0 w3 : world) (ls : list (key * nat)) : Prop :=
+  forall k, exists wk, Inv wk /\ Mono w0 wk /\ Mono wk w3 /\
+    loose_size ls k = option_map (fun f => length (fdata f)) (get_loose wk k).
+
+Theorem lookup1_finds_concurrent w0 w1 w3 ls k c :
+  Inv w0 -> Inv w1 -> Inv w3 -> observed_loose w0 w3 ls ->
+  stored w0 k = Some c ->
+  fsize (lookup1 (db w1) ls (db w3) k) = Some (length c).
+Proof.
+  intros I0 I1 I3 Hobs Hs.
+  assert (Hk : H c = k) by exact (stored_sound H inflate w0 k c I0 Hs).
+  unfold lookup1. destruct (find_row (db w1) k) as [r|] eqn:F1.
+  - apply find_row_some in F1 as [Hin Hrk]. cbn. f_equal. apply (inv_row_size w1); auto. congruence.
+  - destruct (Hobs k) as (wk & Ik & M0k & Mk3 & Els). rewrite Els.
+    destruct (get_loose wk k) as [f2|] eqn:Hl2; cbn.
+    + destruct Ik as (_ & _ & _ & Hl). rewrite Forall_forall in Hl.
+      pose proof (Hl _ (get_loose_in _ _ _ Hl2)) as E. cbn in E.
+      assert (fdata f2 = c) by (apply H_inj; congruence). subst. reflexivity.
+    + assert (Hin2 : In k (map rkey (db wk))).
+      { unfold Store.stored in Hs. destruct M0k as (R02 & _ & L02).
+        destruct (find_row (db w0) k) as [r|] eqn:F0.
+        - apply find_row_some in F0 as [Hin Hrk]. rewrite <- Hrk. apply in_map. auto.
+        - destruct (get_loose w0 k) as [f|] eqn:Hl0; [|discriminate].
+          destruct (L02 _ _ Hl0) as [(f' & Hl' & _)|Hin]; [congruence|exact Hin]. }
+      destruct Mk3 as (R23 & _ & _).
+      apply in_map_iff in Hin2 as (r & Hrk & Hr2).
+      assert (Hin3 : In r (db w3)) by auto.
+      rewrite <- Hrk. rewrite (find_row_in _ _ (inv_nodup w3 I3) Hin3). cbn. f_equal.
+      apply (inv_row_size w3); auto. congruence.
+Qed.
+
+Theorem bulk_reports_every_stored_object_concurrent cfg skip w0 w1 w3 ls ks k c :
+  (0 < in_max cfg)%nat -> NoDup ks ->
+  Inv w0 -> Inv w1 -> Inv w3 -> observed_loose w0 w3 ls ->
+  stored w0 k = Some c -> In k ks ->
+  exists f, In f (fst (lookup_bulk cfg skip (db w1) ls (db w3) ks)) /\ fkey f = k /\ fsize f = Some (length c).
+Proof.
+  intros Hn Nk I0 I1 I3 Hobs Hs Hk.
+  pose proof (lookup1_finds_concurrent w0 w1 w3 ls k c I0 I1 I3 Hobs Hs) as Hf.
+  exists (lookup1 (db w1) ls (db w3) k). split; [|split; [apply fkey_lookup1|exact Hf]].
+  apply bulk_in; try assumption; try (apply inv_nodup; assumption). exists k. split; [exact Hk|]. split; [reflexivity|].
+  unfold wanted. destruct (lookup1 (db w1) ls (db w3) k); cbn in *; try rewrite andb_false_r; try reflexivity. discriminate.
+Qed.
+
 (* conversely nothing is invented: a key reported as present is in the snapshot, in the loose folder or in the refreshed index *)
 Theorem bulk_reports_only_what_is_there cfg skip w1 w2 w3 ks f :
   (0 < in_max cfg)%nat -> NoDup ks -> Inv w1 -> Inv w3 ->
